@@ -489,7 +489,7 @@ pub fn run(prop: &str, tier: &str, replay: Option<&str>) -> i32 {
             rep.add(sec);
         }
         // wrong labels around the right body
-        let labels = ["CERTIFICATE", "CERTIFICATE REQUEST", "PUBLIC KEY", "X509 CRL", "EC PRIVATE KEY", "RSA PRIVATE KEY", "ENCRYPTED PRIVATE KEY", "", "PRIVATE KEY\u{e9}"];
+        let labels = ["CERTIFICATE", "CERTIFICATE REQUEST", "PUBLIC KEY", "X509 CRL", "EC PRIVATE KEY", "RSA PRIVATE KEY", "ENCRYPTED PRIVATE KEY", "", "PRIVATE KEY\u{e9}", " ", "  ", "PRIVATE KEY ", " PRIVATE KEY", "PRIVATE  KEY", "private key"];
         let sec = Section::new(&format!("errors-pem-labels/key{:02} {}", ki, k.label), "the key's DER under every other PEM label, through every PEM loader and parser");
         run::sweep_cases(&sec, &labels.to_vec(), &|l| format!("label {:?}", l), &|l| {
             let mut out = Outcome::default();
